@@ -568,6 +568,7 @@ func helloFragments(r *mon.Run, keys []echgen.KeyPair) {
 		first, hrr []byte // retry: accepted first hello and the HelloRetryRequest
 		ks         []ech.Key
 		cuts       []int
+		extra      int // bytes that follow the hello message inside its (last) record
 	}
 	var jobs []job
 	grng := r.Rand("hellofrag-gen", 0)
@@ -610,14 +611,31 @@ func helloFragments(r *mon.Run, keys []echgen.KeyPair) {
 				jj.cuts = []int{1 + grng.IntN(len(j.msg)-last-1), len(j.msg) - last}
 				jobs = append(jobs, jj)
 			}
+			// bytes after the end of the hello message in the same record (whole and fragmented): they are client
+			// bytes too - refused with the connection or delivered, but not silently dropped
+			for _, extra := range []int{1, 3, 7, 40} {
+				jj := j
+				jj.extra = extra
+				if extra == 7 {
+					jj.cuts = []int{1 + grng.IntN(len(j.msg)-1)}
+				}
+				jobs = append(jobs, jj)
+			}
 		}
 	}
 	r.Parallel("hellofrag", len(jobs), func(i int, rng *mrand.Rand) {
 		j := jobs[i]
 		var wire []byte
 		prev := 0
-		for _, c := range append(append([]int{}, j.cuts...), len(j.msg)) {
-			wire = append(wire, tlswire.Record(22, 0x0301, j.msg[prev:c])...)
+		sent := append([]byte{}, j.msg...)
+		var extra []byte
+		if j.extra > 0 {
+			extra = hellogen.Bytes(rng, j.extra)
+			extra[0] |= 1 // never all zeros
+			sent = append(sent, extra...)
+		}
+		for _, c := range append(append([]int{}, j.cuts...), len(sent)) {
+			wire = append(wire, tlswire.Record(22, 0x0301, sent[prev:c])...)
 			prev = c
 		}
 		tail := append(tlswire.Record(20, 0x0303, []byte{1}), tlswire.Record(23, 0x0303, hellogen.Bytes(rng, 1+rng.IntN(60)))...)
@@ -645,12 +663,33 @@ func helloFragments(r *mon.Run, keys []echgen.KeyPair) {
 				}
 				var err error
 				conn, err = ech.NewConn(context.Background(), tc, opts...)
+				if err != nil && j.extra > 0 {
+					r.Count("bytes_after_hello_refused", 1)
+					r.Eval(fmt.Sprintf("hellofrag|%s|extra%d|refused", j.kind, j.extra))
+					return
+				}
 				if err != nil {
 					r.Violate("hellofrag", i, "hello-fragments:newconn-error:"+j.kind, fmt.Sprintf("hello sent as %d handshake records (cuts %v of %d bytes) refused: %v", len(j.cuts)+1, j.cuts, len(j.msg), err), c)
 					return
 				}
 			}
 			got, err := io.ReadAll(conn)
+			if err != nil && j.extra > 0 {
+				r.Count("bytes_after_hello_refused", 1)
+				r.Eval(fmt.Sprintf("hellofrag|%s|extra%d|refused", j.kind, j.extra))
+				return
+			}
+			if j.extra > 0 {
+				// accepted: then nothing the client sent may be missing
+				c["got"] = mon.Hex(got)
+				if !bytes.Contains(got, extra) {
+					r.Violate("hellofrag", i, "hello-fragments:bytes-after-hello-dropped:"+j.kind, fmt.Sprintf("%d bytes that followed the ClientHello message in its record were neither refused nor delivered: the backend read %d bytes", j.extra, len(got)), c)
+				} else {
+					r.Count("bytes_after_hello_delivered", 1)
+				}
+				r.Eval(fmt.Sprintf("hellofrag|%s|extra%d|accepted", j.kind, j.extra))
+				return
+			}
 			if err != nil {
 				r.Violate("hellofrag", i, "hello-fragments:read-error:"+j.kind, fmt.Sprintf("reading the stream of a hello sent as %d handshake records (cuts %v of %d bytes): %v", len(j.cuts)+1, j.cuts, len(j.msg), err), c)
 				return
